@@ -206,4 +206,73 @@ theorem reapChecked_ok (A : DbAlg D) {s t : FS D} {nn : Nat} {v vok iok : Bool}
   | error e => rw [hg] at h; cases h
   | ok u => rw [hg] at h; exact h
 
+/-! ### the resume path's database check never raises a false alarm -/
+
+theorem mem_plan_checkpoint (c : Ctx D) {n : Nat} {W : List (Nat × Nat)} (h : Op.checkpoint n W ∈ c.plan) :
+    n = c.full.name ∧ W = c.W := by
+  simp [Ctx.plan] at h
+  exact h
+
+/-- in every state an interrupted reap or an interrupted recovery can leave, the resume path's
+database check never raises a false alarm: it is made only while no WAL has been consumed, when
+the file is still the one its sidecar was written for -/
+theorem dbCheck_reach {c : Ctx D} (g : Good c) (hcrc : ∀ y, c.full.crc = some y → y = c.d0) {p0 : Prog D} {s : FS D}
+    (h : Reach c p0 s) : ∀ p, s.plan = some p → ∀ n W, Op.checkpoint n W ∈ p → DbCheckPasses dbUntouched s n W := by
+  intro p hp n W hmem
+  cases h with
+  | noplan oth pt q ht hq => cases hp
+  | fam oth pt q ht hq =>
+    have : p = c.plan := by
+      have : some c.plan = some p := hp
+      cases this; rfl
+    subst this
+    obtain ⟨rfl, rfl⟩ := mem_plan_checkpoint c hmem
+    intro hu d hd x y hx hy
+    simp only [dbUntouched, Bool.and_eq_true, Bool.not_eq_true', List.all_eq_true] at hu
+    obtain ⟨⟨hne, hall⟩, hdw⟩ := hu
+    cases q with
+    | ckpt cons x' dw =>
+      have hcons : cons = [] := by
+        cases cons with
+        | nil => rfl
+        | cons a t =>
+          exfalso
+          obtain ⟨rest, hW⟩ := hq.1
+          have ha : a ∈ c.W := by rw [hW]; simp
+          have := hall a ha
+          rw [walExists_ckpt g oth _ _ _ _ _ ha] at this
+          simp at this
+      subst hcons
+      have hdir : (mk c oth (.ckpt [] x' dw) (some c.plan) pt).dir c.full.name
+          = some { tmp := false, mt := some c.full.mt, db := some x', crc := c.full.crc, dbWal := dw,
+                   wals := c.full.wals.filter (fun w => !([] : List (Nat × Nat)).contains (c.full.name, w)) } := by
+        simp [mk, mkDir]
+      rw [hdir] at hd hdw
+      simp only [Option.some.injEq] at hd
+      subst hd
+      simp only at hx hy hdw
+      have hdwn : dw = none := by
+        cases dw with
+        | none => rfl
+        | some w => simp at hdw
+      subst hdwn
+      have hx' : x' = c.fold [] := hq.2
+      simp only [Option.some.injEq] at hx
+      rw [← hx, hx', hcrc y hy]
+      rfl
+    | post crc k sel m dw =>
+      exfalso
+      cases hW : c.W with
+      | nil => simp [hW] at hne
+      | cons a t =>
+        have ha : a ∈ c.W := by rw [hW]; simp
+        have := hall a ha
+        rw [walExists_post g oth _ _ _ _ _ _ _ ha] at this
+        cases this
+    | renamed dw =>
+      have : (mk c oth (.renamed dw) (some c.plan) pt).dir c.full.name = none := by simp [mk, mkDir]
+      rw [this] at hd
+      cases hd
+
+
 end RqModel.SnapFS
